@@ -104,10 +104,11 @@ class _State:
 
 
 class FunctionTranslator:
-    def __init__(self, fn: ast.FunctionDef, consts: set[str], opaque_tests=()):
+    def __init__(self, fn: ast.FunctionDef, consts: set[str], opaque_tests=(), module_tuples=None):
         self.fn = fn
         self.consts = consts
         self.opaque_tests = opaque_tests
+        self.module_tuples = module_tuples or {}
         a = fn.args
         if a.vararg or a.kwarg or a.kwonlyargs or a.posonlyargs:
             raise TranslationError(f"{fn.name}: unexpected signature")
@@ -172,6 +173,20 @@ class FunctionTranslator:
             op = " and " if isinstance(e.op, ast.And) else " or "
             return "(" + op.join([self.sym(e.values[0], st)] + vals) + ")"
         if isinstance(e, ast.Compare):
+            # x in (a, b, c)  ==  x == a or x == b or x == c   (literal tuple / list, or a module-level
+            # constant tuple of names and literals); `not in` is its negation
+            if len(e.ops) == 1 and isinstance(e.ops[0], (ast.In, ast.NotIn)):
+                rhs = e.comparators[0]
+                elts = None
+                if isinstance(rhs, (ast.Tuple, ast.List)):
+                    elts = rhs.elts
+                elif isinstance(rhs, ast.Name) and rhs.id in self.module_tuples and rhs.id not in st.env \
+                        and rhs.id not in self.params:
+                    elts = self.module_tuples[rhs.id]
+                if elts and all(isinstance(x, (ast.Name, ast.Constant)) for x in elts):
+                    left = self._atom(e.left, st)
+                    txt = "(" + " or ".join(f"{left} == {self.sym(x, st)}" for x in elts) + ")"
+                    return txt if isinstance(e.ops[0], ast.In) else f"(not {txt})"
             parts = [self._atom(e.left, st)]
             for op, c in zip(e.ops, e.comparators):
                 parts.append(_CMP[type(op)])
@@ -579,11 +594,24 @@ def translate_module(src: str, consts: set[str], prefixes, extra, modname, opaqu
     tree = ast.parse(src)
     out = []
     seen = set()
+    # module-level constant tuples / lists of names and literals, assigned exactly once
+    module_tuples, assigned = {}, {}
+    for node in ast.walk(tree):
+        if isinstance(node, (ast.Assign, ast.AugAssign, ast.AnnAssign)):
+            for t in (node.targets if isinstance(node, ast.Assign) else [node.target]):
+                for x in ast.walk(t):
+                    if isinstance(x, ast.Name):
+                        assigned[x.id] = assigned.get(x.id, 0) + 1
+    for node in tree.body:
+        if (isinstance(node, ast.Assign) and len(node.targets) == 1 and isinstance(node.targets[0], ast.Name)
+                and isinstance(node.value, (ast.Tuple, ast.List)) and assigned.get(node.targets[0].id) == 1
+                and all(isinstance(x, (ast.Name, ast.Constant)) for x in node.value.elts)):
+            module_tuples[node.targets[0].id] = node.value.elts
     for node in tree.body:
         if isinstance(node, ast.FunctionDef) and (node.name.startswith(prefixes) or node.name in extra):
             if node.decorator_list:
                 raise TranslationError(f"{node.name}: decorated codec function")
-            ev = FunctionTranslator(node, consts, opaque_tests).run()
+            ev = FunctionTranslator(node, consts, opaque_tests, module_tuples).run()
             out.append((f"{modname}.{node.name}", ev))
             seen.add(node.name)
         elif isinstance(node, (ast.AsyncFunctionDef,)):
